@@ -207,14 +207,17 @@ type Opts struct {
 func GenIndexedCols(t *rapid.T, cols []Ident, max int, label string) string {
 	n := rapid.IntRange(1, min(max, len(cols))).Draw(t, label+"n")
 	perm := rapid.Permutation(cols).Draw(t, label+"p")[:n]
-	if rapid.IntRange(0, 7).Draw(t, label+"rep") == 0 {
-		// a column may be listed twice (PRIMARY KEY (a, b, a) is legal)
+	repeated := false
+	if rapid.IntRange(0, 5).Draw(t, label+"rep") == 0 {
+		// a column may be listed twice (PRIMARY KEY (a, b, a) is legal; under
+		// another collation both copies are kept)
 		perm = append(perm, perm[rapid.IntRange(0, len(perm)-1).Draw(t, label+"repi")])
+		repeated = true
 	}
 	var parts []string
-	for _, c := range perm {
+	for i, c := range perm {
 		s := Ref(t, c, label)
-		if rapid.IntRange(0, 4).Draw(t, label+"c") == 0 {
+		if rapid.IntRange(0, 4).Draw(t, label+"c") == 0 || (repeated && i == len(perm)-1 && rapid.Bool().Draw(t, label+"repc")) {
 			s += " COLLATE " + rapid.SampledFrom(collations).Draw(t, label+"cn")
 		}
 		s += rapid.SampledFrom([]string{"", "", "", " ASC", " DESC", " DESC"}).Draw(t, label+"d")
@@ -404,6 +407,11 @@ func GenIndex(t *rapid.T, name Ident, tb Table, unique, exprs, partial bool) Ind
 		ix.Exprs = append(ix.Exprs, s)
 		if rapid.IntRange(0, 3).Draw(t, "icoll") == 0 {
 			s += " COLLATE " + rapid.SampledFrom(collations).Draw(t, "icolln")
+		} else if tb.WithoutRowid && rapid.IntRange(0, 3).Draw(t, "icollwr") == 0 {
+			// on WITHOUT ROWID tables the collation of an indexed key column
+			// decides whether SQLite appends the key column again: spell out
+			// the default one, too (it overrides the column's own)
+			s += " COLLATE " + rapid.SampledFrom([]string{"BINARY", "binary"}).Draw(t, "icollwrn")
 		}
 		s += rapid.SampledFrom([]string{"", "", "", " ASC", " DESC", " DESC"}).Draw(t, "idir")
 		ix.Cols = append(ix.Cols, s)
